@@ -106,7 +106,44 @@ Theorem C20_check_iff_malformed :
 Proof. exact check_iff_malformed. Qed.
 Print Assumptions C20_check_iff_malformed.
 
-(* ---- the filter: for every sequence of accept / deny / reset commands and every line ---- *)
+(* ---- whole files (LoadFile / ParseByLine): ls are the newline-ended lines (LF, or CRLF: the \r is
+        then the last byte of the line and is dropped), last is the text after the final newline.
+        One item per physical line, ParseLine of that line, in order - the unterminated last
+        line included ---- *)
+Theorem C20_file_lines :
+  forall ls last, (forall l, In l ls -> no_nl l) -> no_nl last ->
+    raw_lines (unlines ls ++ last) = phys ls last.
+Proof. exact raw_lines_unlines. Qed.
+Print Assumptions C20_file_lines.
+
+Theorem C20_load_text_items :
+  forall pd ro ai ls last,
+    (forall l, In l ls -> no_nl l) -> no_nl last ->
+    (forall l, In l (phys ls last) -> (lenN l < max_token)%N) ->
+    load_text pd ro ai (unlines ls ++ last) =
+      (map (fun l => parse_line pd ro ai (drop_cr l)) (phys ls last), false).
+Proof. exact load_text_items. Qed.
+Print Assumptions C20_load_text_items.
+
+(* a line of 64 KiB or more is not parsed: the load fails (and the file is refused) *)
+Theorem C20_load_text_too_long :
+  forall pd ro ai ls last a l b,
+    (forall x, In x ls -> no_nl x) -> no_nl last -> phys ls last = (a ++ l :: b)%list ->
+    (forall x, In x a -> (lenN x < max_token)%N) -> (max_token <= lenN l)%N ->
+    load_text pd ro ai (unlines ls ++ last) = (map (fun x => parse_line pd ro ai (drop_cr x)) a, true).
+Proof. exact load_text_too_long. Qed.
+Print Assumptions C20_load_text_too_long.
+
+Theorem C20_file_check_iff_malformed :
+  forall pd ro ai ls last,
+    (forall l, In l ls -> no_nl l) -> no_nl last ->
+    (forall l, In l (phys ls last) -> (lenN l < max_token)%N) ->
+    (check_fails (fst (load_text pd ro ai (unlines ls ++ last))) = true <->
+     exists l, In l (phys ls last) /\ malformed pd ro ai (drop_cr l)).
+Proof. exact file_check_iff_malformed. Qed.
+Print Assumptions C20_file_check_iff_malformed.
+
+(* ---- the filter: for every sequence of accept / deny / reset (and delete) commands and every line ---- *)
 Theorem C20_filter_spec :
   forall mt acts line,
     pass mt (ffinal acts) line = true <->
@@ -169,10 +206,14 @@ Example C20_witness :
   P "<'p',1,1s> {""a"":"">""}" = ISend "{""a"":"">""}" 0 "p" 1 1000000000 /\
   P "<'\'foo\'',1,10s> x" = ISend "x" 0 "\'foo\'" 1 10000000000 /\
   check_fails (parse_file ex_pd ex_ro ex_ai ["# c"; "[5] hello"; "go"]) = true /\
+  (* a file with a CRLF line, an empty line and an unterminated last line *)
+  load_text ex_pd ex_ro ex_ai (str [35;32;99;13;10; 10; 91;53;93;32;104;10; 103;111]%N) =
+    ([IComment false "c"; ISend "" 0 "" 0 0; IError; ISend "go" 0 "" 0 0], false) /\
   (* filter: accept [a-h], deny [0-9]; then reset *)
   frun ex_mt fnew [Line "zz"; Act (Accept "[a-h]"); Act (Deny "[0-9]"); Line "ah"; Line "ah0"; Line "zz";
                    Act Reset; Line "zz"] = ["zz"; "ah"; "zz"] /\
-  accept_in_force "[a-h]" [Accept "[a-h]"; Deny "[0-9]"].
+  accept_in_force "[a-h]" [Accept "[a-h]"; Deny "[0-9]"; DelAccept "x"] /\
+  frun ex_mt fnew [Act (Accept "[a-h]"); Act (Accept "[0-9]"); Act (DelAccept "[a-h]"); Line "ah"; Line "ah0"] = ["ah0"].
 Proof.
   cbv zeta. repeat match goal with |- _ /\ _ => split end; try (vm_compute; reflexivity).
   - exists "", "", "", " ". vm_compute. repeat split.
@@ -181,5 +222,6 @@ Proof.
     repeat first [apply qp_nil | apply qp_esc; [reflexivity|reflexivity|] | apply qp_chr; [reflexivity|reflexivity|]].
   - exists "", "", "", " ". vm_compute. repeat split. discriminate.
   - exists "", "#", " ". vm_compute. repeat split. discriminate.
-  - exists [], [Deny "[0-9]"]. split; [reflexivity|]. intros [H|[]]. discriminate.
+  - exists [], [Deny "[0-9]"; DelAccept "x"]. split; [reflexivity|].
+    intros x [<-|[<-|[]]] [C|C]; discriminate.
 Qed.
